@@ -209,7 +209,14 @@ func (ex *Exec) evalUnary(p *Path, x *ast.UnaryExpr) Value {
 				t = ex.info.TypeOf(in)
 			}
 			sv := ex.evalComposite(p, in, t)
-			return ex.allocStruct(p, sv, x.Pos())
+			rv := ex.allocStruct(p, sv, x.Pos())
+			if len(in.Elts) == 0 && p.private[rv.T] {
+				if p.blank == nil {
+					p.blank = map[string]bool{}
+				}
+				p.blank[rv.T] = true
+			}
+			return rv
 		case *ast.Ident:
 			// &local: allocate a cell initialised with the current value
 			v := ex.eval(p, in)
